@@ -37,11 +37,12 @@ NAMED_LIST = sorted(refs.NAMED_RGB)
 
 CSS_SPELLINGS = ("hex6", "hex6u", "hex3", "name", "nameU", "rgb", "rgbtight", "rgbpct", "hsl", "RGB")
 API_ONLY_SPELLINGS = ("barehex", "tuple", "list", "informal")
-ALPHA_SPELLINGS = ("rgba", "hsla", "rgba_tuple")
+ALPHA_SPELLINGS = ("rgba", "hsla", "rgba_tuple", "rgb4", "rgb_slash", "bare4")
+CSS_ALPHA_SPELLINGS = ("rgba", "hsla", "rgb4", "rgb_slash")
 # spellings the library accepts whose exact reading is the library's own business (used where the reference is the
 # same call in a pristine process, never where an independent reader has to know the colour)
 EXOTIC_API_SPELLINGS = ("tuple_strs", "tuple_pct", "tuple_float", "tuple01", "paren", "rgb_space", "spaces", "padded", "barehexU",
-                        "hsl_tuple", "rgba_pct", "mixedcase_fn", "list_float", "tuple_bool")
+                        "hsl_tuple", "rgba_pct", "mixedcase_fn", "list_float", "tuple_bool", "fn_gap", "fn_colon", "rgba_gap", "hsla_gap")
 
 
 def spell(rng, rgb, kinds=CSS_SPELLINGS):
@@ -103,6 +104,16 @@ def spell(rng, rgb, kinds=CSS_SPELLINGS):
         return (round(h * 360.0, 1) or 2.0, round(s_, 3), round(l, 3)), k
     if k == "rgba_pct":
         return "rgba(%d%%, %d%%, %d%%, %s)" % (round(rgb[0] * 100 / 255), round(rgb[1] * 100 / 255), round(rgb[2] * 100 / 255), rng.choice(("50%", "100%", "0.5", "1"))), k
+    if k == "fn_gap":
+        return rng.choice(("rgb (%d, %d, %d)", "RGB  (%d,%d,%d)")) % rgb, k
+    if k == "fn_colon":
+        return rng.choice(("rgb: (%d, %d, %d)", "rgb = (%d, %d, %d)")) % rgb, k
+    if k == "rgba_gap":
+        return rng.choice(("rgba (%d, %d, %d, 0.6)", "RGBA: (%d, %d, %d, 0.5)", "rgba  (%d,%d,%d,1)")) % rgb, k
+    if k == "hsla_gap":
+        hs = hsl_spelling(rgb)
+        if hs:
+            return rng.choice(("hsla (%s, 0.5)", "HSLA: (%s, 0.7)", "hsl (%s)")) % hs[4:-1], k
     if k == "mixedcase_fn":
         return rng.choice(("Rgb(%d, %d, %d)", "rGB( %d , %d , %d )")) % rgb, k
     return _hex6(rgb), "hex6"
@@ -119,6 +130,12 @@ def spell_alpha(rng, rgb, alpha, kind=None):
         if s:
             return "hsla(" + s[4:-1] + ", %s)" % a, kind
         return "rgba(%d, %d, %d, %s)" % (rgb[0], rgb[1], rgb[2], a), "rgba"
+    if kind == "rgb4":
+        return "rgb(%d, %d, %d, %s)" % (rgb[0], rgb[1], rgb[2], a), kind
+    if kind == "rgb_slash":
+        return "rgb(%d %d %d / %s)" % (rgb[0], rgb[1], rgb[2], ("%g%%" % (alpha * 100)) if rng.random() < 0.5 else a), kind
+    if kind == "bare4":
+        return "%d, %d, %d, %s" % (rgb[0], rgb[1], rgb[2], a), kind
     return (rgb[0], rgb[1], rgb[2], alpha), "rgba_tuple"
 
 
@@ -234,10 +251,10 @@ def pick_text(rng, bg, thr, band):
 ALL_FEATURES = (
     "vars", "var-fallback", "var-undefined", "var-chain", "var-shared", "root-direct-color", "root-and-html",
     "important", "repeat-decl", "prop-case", "nesting", "bg-var", "keywords", "opaque-atrules", "vendor-hacks",
-    "star-hack", "non-ascii", "crlf", "bom", "cdo-cdc", "alpha-text", "comments", "no-color-rules", "odd-strings", "dup-root", "nested-root", "unicode-seps", "dup-selectors",
+    "star-hack", "non-ascii", "crlf", "bom", "cdo-cdc", "alpha-text", "comments", "no-color-rules", "odd-strings", "dup-root", "nested-root", "unicode-seps", "dup-selectors", "own-colour-elsewhere", "css-nesting",
 )
 # features outside what the reference cascade of C08 models or what C08's statement quantifies over
-C09_ONLY = ("opaque-atrules", "vendor-hacks", "star-hack", "crlf", "bom", "cdo-cdc", "odd-strings", "dup-root", "nested-root", "unicode-seps", "dup-selectors")
+C09_ONLY = ("opaque-atrules", "vendor-hacks", "star-hack", "crlf", "bom", "cdo-cdc", "odd-strings", "dup-root", "nested-root", "unicode-seps", "dup-selectors", "css-nesting")
 
 _SEL_FORMS = (".r%d", "#id%d", "a.x%d:hover", "div > p.k%d", "[data-x=\"%d\"]", "ul li.i%d", "h%d", "p.c%d::before", "a.u%d, a.u%d:visited",
               "input[type='text'].q%d", "a+b.s%d", "li ~ li.t%d")
@@ -339,11 +356,15 @@ class SheetGen:
     def color_value(self, rgb, allow_alpha=True, bg=None):
         """Express the wanted text colour `rgb` as a declaration value (maybe through a var)."""
         r, f = self.rng, self.feats
-        if "alpha-text" in f and allow_alpha and bg is not None and r.random() < 0.15:
-            # translucent text: choose alpha and a source colour whose composite is near rgb (not exact; fine)
+        if "alpha-text" in f and allow_alpha and bg is not None and r.random() < 0.2:
+            # translucent text: choose alpha and a source colour whose composite is near rgb (not exact; fine).
+            # The very same translucent string is often reused by later rules on OTHER backgrounds.
+            if getattr(self, "_alpha_reuse", None) and r.random() < 0.6:
+                return self._alpha_reuse, "alpha"
             a = r.choice((0.5, 0.25, 0.75, 0.9))
             src = tuple(max(0, min(255, int(round((c - (1 - a) * b) / a)))) for c, b in zip(rgb, bg))
-            return spell_alpha(r, src, a, r.choice(("rgba", "hsla")))[0], "alpha"
+            self._alpha_reuse = spell_alpha(r, src, a, r.choice(CSS_ALPHA_SPELLINGS))[0]
+            return self._alpha_reuse, "alpha"
         if "vars" in f and r.random() < 0.45:
             if "var-shared" in f and self.vars and r.random() < 0.5:
                 name = r.choice(self.vars)[0]
@@ -413,6 +434,17 @@ class SheetGen:
         parts = cds + ([bgd] if bgd else [])
         r.shuffle(parts)
         decls += parts
+        if "own-colour-elsewhere" in f and not v.startswith("var("):
+            # the rule's own text colour spelling also occurs elsewhere in the block (border, outline, a comment)
+            for _ in range(r.randint(1, 2)):
+                other = r.choice(({"rawdecl": "border: 1px solid %s" % v}, {"rawdecl": "outline-color: %s" % v}, {"raw": "/* was %s */" % v},
+                                  {"rawdecl": "box-shadow: 0 0 2px %s" % v}, {"rawdecl": "--accent-copy: %s" % v}))
+                decls.insert(r.randrange(len(decls) + 1), other)
+        if "css-nesting" in f and r.random() < 0.5:
+            # CSS nesting: a conditional group rule (or a nested style rule) inside the style rule's block
+            nested = r.choice(("@media (min-width: 600px) { color: #767676; margin: 0 }", "@supports (display: grid) { display: grid }",
+                               "@media print { color: black }"))
+            decls.insert(r.choice((len(decls), r.randrange(len(decls) + 1))), {"raw": nested})
         self.decorate(decls)
         return {"t": "rule", "sel": sel, "decls": decls, "band": band, "ckind": kind}
 
